@@ -25,7 +25,7 @@ import os
 import sys
 
 HERE = os.path.dirname(os.path.abspath(__file__))
-for _p in (HERE, "/verif/tools"):
+for _p in (HERE,):
     if os.path.exists(os.path.join(_p, "extract_core.py")) and _p not in sys.path:
         sys.path.insert(0, _p)
 
